@@ -104,16 +104,25 @@ def build(case, tmp):
     inner = case["inner"]  # "dir" | "include" | "subst"
     settings = {"myst_enable_extensions": mdgen.ALL_EXTENSIONS, "myst_substitutions": dict(SUBS)}
     settings_w = dict(settings)
+    x_inplace = x_text
     if inner == "include":
         with open(os.path.join(tmp, "xfile.md"), "w") as fh:
             fh.write(x_text + "\n")
-        core_blocks = [{"t": "directive", "name": "include", "arg": "xfile.md", "raw": "", "opts": [], "optstyle": "colon",
-                        "fence": "`", "len": 3, "blank": 0, "ch": None}]
+        inc_block = {"t": "directive", "name": "include", "arg": "xfile.md", "raw": "", "opts": [], "optstyle": "colon",
+                     "fence": "`", "len": 3, "blank": 0, "ch": None}
+        core_blocks = [inc_block]
+        if case.get("twice"):
+            # the same file included a second time, later in the same document == its text written twice
+            core_blocks = [inc_block, {"t": "para", "inl": [{"t": "text", "s": "Between the two."}]}, copy.deepcopy(inc_block)]
+            x_inplace = x_text + "\n\nBetween the two.\n\n" + x_text
     elif inner == "subst":
         settings_w["myst_substitutions"] = dict(SUBS, xval=x_text)
         core_blocks = [{"t": "subst_block", "key": "xval"}]
     else:
         core_blocks = x_blocks
+        if case.get("twice"):
+            core_blocks = x_blocks + [{"t": "para", "inl": [{"t": "text", "s": "Between the two."}]}] + copy.deepcopy(x_blocks)
+            x_inplace = x_text + "\n\nBetween the two.\n\n" + x_text
     blocks = core_blocks
     for layer in case["layers"]:
         blocks = [{"t": "directive", "name": layer["name"], "arg": "Wrap Title" if layer["name"] == "admonition" else "",
@@ -121,7 +130,7 @@ def build(case, tmp):
                    "blank": layer["blank"], "fence": layer["fence"], "len": None, "ch": blocks}]
     after = after + after_nested
     w_text = "Outer before.\n\n" + mdgen.render(copy.deepcopy(blocks)).rstrip("\n") + "\n\n" + after + "\n"
-    i_text = "Outer before.\n\n" + x_text + "\n\n" + after + "\n"
+    i_text = "Outer before.\n\n" + x_inplace + "\n\n" + after + "\n"
     return w_text, i_text, settings_w, settings, len(case["layers"])
 
 
@@ -290,7 +299,13 @@ def case_st(draw, inner=None):
         layers = draw(st.lists(layer_st, min_size=1, max_size=4))
     else:
         layers = draw(st.lists(layer_st, min_size=0, max_size=2))
-    return {"x": x, "inner": inner, "layers": layers, "outer_use": draw(st.booleans())}
+    case = {"x": x, "inner": inner, "layers": layers, "outer_use": draw(st.booleans())}
+    # (not for X that defines link references: whether a definition made in a nested parse is visible to text parsed
+    # earlier is the recorded finding about definition order, and the second copy would see the first copy's definitions)
+    if inner == "include" and draw(st.integers(0, 2)) == 0 and not any(b["t"] == "refdef" for b in mdgen.walk_blocks(x)):
+        case["twice"] = True
+        case["outer_use"] = False     # (the extra definitions would be duplicates of themselves)
+    return case
 
 
 def sub_dir(acc, shard, nshards, tier, seed):
